@@ -117,6 +117,9 @@ def check_plog(m, fam, k, way, acc):
         acc.violation(classify_exc(m, e), case, {"what": "to_json / from_json raised", "exc": repr(e), "model": show(m)})
         return
     acc.obs(json.dumps(doc, sort_keys=True))
+    if json.dumps(obj.to_json(), sort_keys=True) != json.dumps(doc, sort_keys=True):
+        acc.violation(None, case, {"what": "to_json() called twice on one object gives two different documents", "model": show(m)})
+        return
     leaves = leaves_of(m)
     if leaf_set(back) != {(i, tuple(b)) for i, b in leaves.items()}:
         acc.violation(None, case, {"what": "leaf variables / bounds changed", "model": show(m), "json": doc, "got": sorted(map(repr, leaf_set(back)))})
